@@ -235,6 +235,12 @@ def main(argv=None):
     unknown = [o for o in obligations if o['verdict'] not in ('proved', 'refuted')]
     for o in unknown:
         undecided.append('%s: solver %s (%s)' % (o['name'], o['verdict'], (o.get('info') or {}).get('reason')))
+    # thorough tier: every proved obligation was also given to cvc5; a contradiction between the back
+    # ends is a checker fault, never a verdict
+    second = [o for o in proved if (o.get('info') or {}).get('cvc5')]
+    for o in second:
+        if o['info']['cvc5'] == 'refuted':
+            faults.append('%s: z3 proved it but cvc5 reports a counter-model (back-end disagreement)' % o['name'])
 
     # ---- known findings: each must still reproduce on the real code; its obligations are expected red
     lines = []
@@ -269,6 +275,18 @@ def main(argv=None):
         violations.append((o, rel, res))
         lines.append('VIOLATION property=%s replay=%s obligation=%s%s' % (pid, rel, o['name'], tail))
 
+    # thorough tier: the property's whole replay battery is also run on the tree as it is - bounded
+    # exploration of the real code, reported separately and never counted as proved
+    exploration = None
+    if tier == 'thorough' and not violations:
+        path, res = run_replay(pid, dict(name='exploration:replay-battery', verdict='exploration', model=None, line=None, info={}),
+                               extra=dict(known_ids=[f['id'] for f in kfs]))
+        exploration = dict(found=bool(res.get('found')), tried=res.get('tried'), input=res.get('input'))
+        if res.get('found'):
+            rel = os.path.relpath(path, VERIF)
+            o = dict(name='exploration:replay-battery', line=None, backend='replay harness (bounded exploration)', verdict='refuted')
+            violations.append((o, rel, res))
+            lines.append('VIOLATION property=%s replay=%s obligation=exploration:replay-battery' % (pid, rel))
     wall = time.time() - t0
     bounded = [dict(name=o['name'], verdict='held on every enumerated case' if o['verdict'] == 'proved' else 'FAILED', method=o.get('backend'))
                for o in bounded_obls]
@@ -288,12 +306,15 @@ def main(argv=None):
             samples=[dict(name=o['name'], verdict=o['verdict'], ms=o['ms'], backend=o['backend'], line=o['line'])
                      for o in (obligations[:3] + obligations[len(obligations) // 2:len(obligations) // 2 + 2] + obligations[-2:])],
             bounded_stand_ins=bounded,
+            exploration=exploration,
+            cvc5_second_opinions=len(second),
             source_root=ROOT,
         ),
         assumptions=sorted(assumed),
         wall_s=round(wall, 2), violations=len(violations))
-    os.makedirs(os.path.join(VERIF, 'evidence'), exist_ok=True)
-    with open(os.path.join(VERIF, 'evidence', pid + '.json'), 'w') as f:
+    evdir = os.environ.get('PYVC_EVIDENCE_DIR') or os.path.join(VERIF, 'evidence')   # experiments on scratch trees write elsewhere
+    os.makedirs(evdir, exist_ok=True)
+    with open(os.path.join(evdir, pid + '.json'), 'w') as f:
         json.dump(ev, f, indent=1, default=str)
 
     for ln in lines:
